@@ -377,7 +377,7 @@ class C19:
                 opts = HAND[sc]
                 toks = None
             else:
-                opts = draw(schemas(nocase=bool(flags & F_NOCASE), allow_deprecated=True, max_depth=3))
+                opts = draw(schemas(nocase=bool(flags & F_NOCASE), allow_deprecated=True, max_depth=3, allow_simple=True))
                 sc = opts
             toks = draw(gen_text.text_tokens(opts, flags, max_items=6, allow_unknown=False, bad_p=0.0))
             if flags & F_COMMENTS and draw(st.booleans()):
